@@ -43,8 +43,31 @@ def main():
         facts[c] = load_cached(d)
     rep = harness.Report(pid)
     mod.run(facts, rep, tier)
+    sens_lost = 0
+    if tier == "thorough" and not os.environ.get("VERIF_NESTED") and not os.environ.get("VERIF_NO_SENS"):
+        import sensitivity
+        results, sens_lost = sensitivity.run(pid)
+        extra = getattr(rep, "extra_cov", None) or {}
+        extra["sensitivity_self_test"] = {
+            "what": "each recorded seeded change this check detects was applied to a scratch copy of /repo's current "
+                    "tree and the same static check was re-run on the copy; 'detected' = the recorded rule fired",
+            "changes": results,
+            "detected": sum(1 for r in results if r["status"] == "detected"),
+            "skipped": sum(1 for r in results if r["status"] == "skipped"),
+            "lost": sens_lost,
+        }
+        rep.extra_cov = extra
+        for r in results:
+            if r["status"] == "lost":
+                print("SENSITIVITY-LOST property=%s seed=%s expected rule %s, reported %s"
+                      % (pid, r["seed"], r["expected_rule"], r.get("reported")))
+            else:
+                print("sensitivity: %s %s%s" % (r["seed"], r["status"],
+                                                (" (" + r["why"] + ")") if r.get("why") else ""))
     rc = harness.finish(rep, tier, t0, level=getattr(mod, "LEVEL", "other"),
                         explanation=getattr(mod, "EXPLANATION", ""), extra_cov=getattr(rep, "extra_cov", None))
+    if sens_lost and os.environ.get("VERIF_SENS_STRICT") == "1" and rc == 0:
+        rc = 2
     if replay:
         key = r.get("key")
         hit = any(f.key == key for f in rep.findings)
